@@ -37,7 +37,7 @@ PROPS['C01'] = dict(
 T_CW = 'cosmwasm_std 1.1.8 / cw20 1.0.0 data types re-declared with the same public shape; Uint128::{checked_sub,checked_mul,multiply_ratio}, Decimal::from_ratio, Uint128*Decimal (256-bit intermediate, floor, abort on zero divisor / >128-bit result) as read from the dependency source (shim_cw.rs, external_body)'
 T_API = 'Api::{addr_validate, addr_canonicalize, addr_humanize}: validate keeps the text; canonicalize/humanize are an uninterpreted deterministic partial bijection'
 T_STORE = 'cw-storage-plus Item: load returns what the last save stored, items do not alias (modelled as fields of a storage record)'
-T_QUERY = 'packages/haloswap/src/querier.rs (one querier.query JSON round trip each): results are projections of one ghost ledger (bank balances, cw20 balances, cw20 supplies)'
+T_QUERY = 'QuerierWrapper::query (one JSON round trip to the chain) is external: its answer is the uninterpreted `answer::<T>(world, request)`; admitted axioms (units/haloswap_querier.rs, group_chain_queries) state that the bank Balance query answers the ledger balance, a cw20 Balance / TokenInfo query the ledger balance / supply / decimals. The eight wrappers of packages/haloswap/src/querier.rs are VERIFIED against these (which contract is asked, which address / denom / message is sent, which field is returned)'
 T_SERDE = 'serde: to_binary is an uninterpreted function of the value, from_binary an uninterpreted deterministic function of the bytes'
 T_DERIVE2 = '#[cw_serde] derives (Clone, PartialEq) are structural; thiserror #[from] and the ? operator convert errors through the From impls (vstd spec_from axioms)'
 T_R4 = 'rewrite R4: std iterator adapters / Option::unwrap_or_else / Vec::contains replaced by helper loops that are themselves verified in the same file (helpers.rs); std is trusted to behave like them'
@@ -88,26 +88,26 @@ PROPS['C01']['min_tagged'] = 8
 PROPS['C01']['assumptions'] = [T_CHAIN, 'router entry reaches swap only through the pair entry points proved here (router contracts: C13)']
 
 T_R6 = "rewrite R6': `.into_iter().map(closure capturing &mut).collect::<StdResult<Vec<_>>>()?` and `for x in v.into_iter().rev()` are unrolled into the equivalent explicit loops (declared rewrites listed per function); iteration order and early-exit-on-first-error are preserved"
-T_ROUTERQ = 'router-side cross-contract queries (factory Pair query, pair Simulation / ReverseSimulation queries) are uninterpreted functions of the chain state (pair_of, sim_return, rev_offer): what those queries return is proved on the pair / factory side'
+T_ROUTERQ = 'cross-contract query answers (factory Pair query, pair Simulation / ReverseSimulation queries) are NAMED by uninterpreted functions of the chain state (pair_of, sim_return, rev_offer) through admitted naming axioms on `answer`; what those queries return is proved on the pair / factory side; the wrappers in querier.rs are verified to send exactly that request'
 T_HASH = 'std HashMap<String,bool>: vstd hash-map specs plus two admitted axioms (a String is determined by its characters; String obeys the hash key model); HashMap::keys().len() rewritten to HashMap::len()'
 ROUTER_TRUST = [T_VERUS, T_UINT128, T_CW, T_API, T_STORE, T_QUERY, T_SERDE, T_DERIVE2, T_R4, T_R2, T_R6, T_ROUTERQ, T_HASH]
 
 PROPS['C11'] = dict(
-    units=[('u_router.rs', 'B', ['router'])], min_tagged=8, trusted=ROUTER_TRUST,
+    units=[('u_router.rs', 'B', ['router', 'querier'])], min_tagged=8, trusted=ROUTER_TRUST,
     assumptions=[T_CHAIN, 'messages of one transaction are executed in order and the whole transaction reverts if any of them fails (CosmWasm semantics for plain messages)'],
     explanation='execute_swap_operations (both entry points) emits one self-call per hop followed, when minimum_receive is given, by exactly one AssertMinimumReceive{asset = ask of the last hop, prev_balance = recipient balance at acceptance, minimum_receive, receiver = to or sender} and nothing after it; assert_minium_receive returns Ok only if called by the router itself and balance >= prev_balance + minimum_receive (checked_sub makes a decrease an error).',
 )
 PROPS['C13'] = dict(
-    units=[('u_router.rs', 'B', ['router'])], min_tagged=12, trusted=ROUTER_TRUST,
+    units=[('u_router.rs', 'B', ['router', 'querier'])], min_tagged=12, trusted=ROUTER_TRUST,
     assumptions=[T_CHAIN, 'distinct pairs / router holding none of the route assets are hypotheses of the statement; that hop k+1 receives exactly what hop k paid follows from the pair contracts (C02) and the chain model, not from a machine-checked composition'],
     explanation='empty routes are rejected; assert_operations accepts iff the remove-offer/insert-ask fold leaves exactly one asset; hop k is a self-call carrying operation k and the final recipient only on the last hop; execute_swap_operation (router-only) offers exactly the router\'s whole balance of the offer asset to the factory-registered pair with to passed through; asset_into_swap_msg builds the native / cw20-send swap message; route simulations are the hop-by-hop folds of the pair queries.',
 )
-PROPS['C12']['units'] = [('u_pair.rs', 'B', None), ('u_router.rs', 'B', ['router'])]
+PROPS['C12']['units'] = [('u_pair.rs', 'B', None), ('u_router.rs', 'B', ['router', 'querier'])]
 PROPS['C12']['trusted'] = sorted(set(PAIR_TRUST + ROUTER_TRUST))
 PROPS['C12']['assumptions'] = [T_CHAIN]
 
 PROPS['C07'] = dict(
-    units=[('u_pair.rs', 'B', None), ('u_router.rs', 'B', ['router'])], min_tagged=20, trusted=sorted(set(PAIR_TRUST + ROUTER_TRUST)),
+    units=[('u_pair.rs', 'B', None), ('u_router.rs', 'B', ['router', 'querier'])], min_tagged=20, trusted=sorted(set(PAIR_TRUST + ROUTER_TRUST)),
     assumptions=[T_CHAIN, 'ledger effect of each emitted message (bank send moves coins from the emitting contract only; cw20 transfer/transfer_from/mint/burn/send move only the named owner/recipient balances and the supply) is the documented behaviour of the bank module and cw20-base 1.0.0, not verified here'],
     explanation='Frame contracts: every state-changing pair / router handler carries a postcondition that pins its ENTIRE message list (swap: at most one transfer of the ask asset from the pair to the receiver; withdraw: two refunds to the hook sender + burn of exactly a; provide: TransferFrom(owner = caller, recipient = pair, declared amount) per cw20 asset + mint(s) on the LP token of exactly the computed share; router: self-calls per hop, one swap message spending only the router\'s own balance, assertion message) and leaves storage untouched. No other message can be emitted, so no third-party balance is named anywhere.',
 )
@@ -118,25 +118,25 @@ T_FQ = 'factory-side queries are projections of the chain state: native_decimals
 FACTORY_TRUST = [T_VERUS, T_CW, T_API, T_FSTORE, T_BYTES, T_FQ, T_SERDE, T_DERIVE2, T_R4, T_R2]
 
 PROPS['C14'] = dict(
-    units=[('u_factory.rs', 'B', ['factory']), ('u_pair.rs', 'B', None), ('u_router.rs', 'B', ['router'])], min_tagged=25,
+    units=[('u_factory.rs', 'B', ['factory', 'querier']), ('u_pair.rs', 'B', None), ('u_router.rs', 'B', ['router', 'querier'])], min_tagged=25,
     trusted=sorted(set(PAIR_TRUST + ROUTER_TRUST + FACTORY_TRUST)),
     assumptions=['"a rejected call changes no balance" = the handler returns Err and the chain reverts the transaction; for storage the no-write clauses are proved', 'the former owner is rejected after a transfer: induction over cfg.ownership-follows (the stored owner is exactly the last successfully configured one)'],
     explanation='every privileged arm carries "Ok => caller is the stored authority" and "caller is not the authority => Err and storage unchanged": factory execute (all four arms: owner), pair update_native_token_decimals (factory only), pair hooks (withdraw: own LP token; swap: one of its cw20 assets), router single-hop and minimum-receive messages (router itself); update_config sets the owner to exactly the requested address.',
 )
 PROPS['C16'] = dict(  # pair-side clauses: init.stores-what-it-was-told, self-report.is-stored-record
    
-    units=[('u_factory.rs', 'B', ['factory', 'asset']), ('u_pair.rs', 'B', None)], min_tagged=14, trusted=FACTORY_TRUST,
+    units=[('u_factory.rs', 'B', ['factory', 'asset', 'querier']), ('u_pair.rs', 'B', None)], min_tagged=14, trusted=FACTORY_TRUST,
     assumptions=['"live cw20 contract" = the token_info query answers; lookups resolve through PAIRS[pair_key(raw(infos))] and the symmetric / injective key lemmas; the registry invariant (every record stored under the key of its own assets) is carried by lemma_registry_wf_preserved over create_pair + reply', 'identifier byte strings are shorter than 2^64 (Vec/String lengths)'],
     explanation='pair_key is verified against pair_key_spec (kind tag + length prefix + sorted identifiers); lemma_key_symmetric and lemma_key_injective give either-order lookup and one-key-per-unordered-set for all identifiers; execute_create_pair: owner only, distinct assets, rate <= 1, key not yet registered, temporary record = (key, raw infos, TRUE decimals from the allow-list / token_info), frame; reply stores exactly (tmp infos, tmp decimals, pair self-report) under the tmp key and leaves every other record untouched; query_pair reads PAIRS at the key of the raw infos.',
 )
 PROPS['C17'] = dict(
-    units=[('u_factory.rs', 'B', ['factory', 'asset']), ('u_pair.rs', 'B', None)], min_tagged=14, trusted=sorted(set(FACTORY_TRUST + PAIR_TRUST)),
+    units=[('u_factory.rs', 'B', ['factory', 'asset', 'querier']), ('u_pair.rs', 'B', None)], min_tagged=14, trusted=sorted(set(FACTORY_TRUST + PAIR_TRUST)),
     assumptions=[T_CHAIN, 'the UpdateNativeTokenDecimals messages emitted by the factory are delivered to the pairs in the same transaction (chain semantics); registry well-formedness (records stored under the key of their own two distinct assets) is an explicit hypothesis discharged by lemma_registry_wf_preserved / lemma_registry_wf_after_update'],
     explanation='execute_add_native_token_decimals: allow-list entry becomes the new value; for a well-formed registry and an already registered denom EVERY record (loop invariant over the complete listing) has the position(s) of that denom set to the new value and everything else unchanged; first registration touches no record; pair update_native_token_decimals: factory only, decimals replaced iff the denom is one of its native assets.',
 )
 
 PROPS['C20'] = dict(
-    units=[('u_pair.rs', 'A', ['asset', 'shim'])] + [('u_pair.rs', 'A', None, ('pair', [f])) for f in ('withdraw_liquidity', 'lemma_c20_payable', 'lemma_refund_fits', 'lemma_c04')], min_tagged=6, trusted=PAIR_TRUST,
+    units=[('u_pair.rs', 'A', ['asset', 'shim', 'querier'])] + [('u_pair.rs', 'A', None, ('pair', [f])) for f in ('withdraw_liquidity', 'lemma_c20_payable', 'lemma_refund_fits', 'lemma_c04')], min_tagged=6, trusted=PAIR_TRUST,
     assumptions=[T_CHAIN, 'mode A = "does not abort / succeeds": environment services (address (de)canonicalisation, bank / cw20 queries, serialisation) are assumed not to fail -- such failures are outside the statement',
                  'that the three emitted messages are then executable (the pair holds the refunds and the LP tokens just sent to it; bank and cw20 reject only zero or uncovered amounts) is chain semantics; the refunds are proved >= 1 and <= reserve',
                  'reachability of states with positive supply and reserves after arbitrary histories rests on C01 (outside the recorded window the ask reserve stays positive)'],
